@@ -235,7 +235,14 @@ class CallMixin:
         return z3.is_const(a) and a.decl().name().startswith('H_attr_')
 
     def apply_field_type(self, v, spec: str) -> None:
-        """class invariant assumed on objects that exist on entry: 'dict[T]' / 'list[T]' / T"""
+        """class invariant assumed on objects that exist on entry: 'dict[T]' / 'list[T]' / T; a suffix '@region' adds the
+        separation invariant "containers held by fields of different regions are different objects" (one uninterpreted
+        region tag per container, stated per read - no quantifier)"""
+        if '@' in spec:
+            spec, region = spec.rsplit('@', 1)
+            import zlib
+            tag = z3.Function('field_region', smt.I, smt.I)
+            self._add_axiom(z3.Implies(v != smt.ABSENT, tag(Val.r(v)) == z3.IntVal(zlib.crc32(region.encode()) % 100003 + 1)))
         if spec.startswith('ddict['):
             # collections.defaultdict whose factory builds an empty container of the inner spec
             inner = spec[6:-1]
